@@ -399,7 +399,7 @@ def _setup_sod(interp):
                                 "scaling.TableScaling.scale", "scaling.NoOpScaling.scale", "scaling.RtdScaling.scale",
                                 "scaling.ThermistorScaling.scale", "scaling.StrainScaling.scale",
                                 "scaling.ThermocoupleScaling.scale", "scaling.AddScaling.scale",
-                                "scaling.SubtractScaling.scale"], ["C14"], variants=SOD_VARIANTS, setup=_setup_sod,
+                                "scaling.SubtractScaling.scale"], ["C14", "C13"], variants=SOD_VARIANTS, setup=_setup_sod,
          note="the array a scale returns has the dtype MultiScaling._compute_scale_dtype declares for it (double; "
               "the input's for NoOp; NumPy's result_type for Add/Subtract) for int16 / float32 / float64 input and "
               "every parameter value, including the identity Linear scale")
